@@ -120,6 +120,15 @@ class K(Base):
         {m}
         def inner(self, x: {h2}) -> {h1}:
             return x
+        class Deep:
+            {m}
+            def dinner(self, x: {h1}) -> {h2}:
+                return x
+            {m}
+            @classmethod
+            {f}
+            def dcm(cls, x: {h2}) -> {h2}:
+                return x
         {m}
         @property
         {f}
@@ -178,7 +187,7 @@ class DC:
 # the __init__ that @dataclass generates is a method of the class too: the by-hand routes decorate it after the fact
 POST = 'DC.__init__ = D(DC.__init__)\nNT.__new__ = D(NT.__new__)'
 MEMBERS = ['plain', 'cm', 'sm', 'prop', 'prop', 'inner', 'meth']
-HAS_SELF = {'ntm': True, 'enm': True, 'encm': True, '__new__': True, 'pre': True, '__init__': True, '__call__': True, 'plain': True, 'cm': True, 'sm': False, 'prop': True, 'loose': True, 'gone': True, 'inner': True, 'nloose': True, 'meth': True}
+HAS_SELF = {'dinner': True, 'dcm': True, 'ntm': True, 'enm': True, 'encm': True, '__new__': True, 'pre': True, '__init__': True, '__call__': True, 'plain': True, 'cm': True, 'sm': False, 'prop': True, 'loose': True, 'gone': True, 'inner': True, 'nloose': True, 'meth': True}
 
 
 def source(h1, h2, confkw, route):
@@ -187,7 +196,8 @@ def source(h1, h2, confkw, route):
         return HEADER.format(confkw=confkw) + BODY.format(h1=h1, h2=h2, classdec='@D', m='', ms='', f='', nesteddec='', post='')
     if route == 'functions':
         # @D directly on the plain functions underneath the descriptors (and on plain methods)
-        body = BODY.replace('    {m}\n    def ', '    @D\n    def ').replace('        {m}\n        def ', '        @D\n        def ')
+        body = (BODY.replace('    {m}\n    def ', '    @D\n    def ').replace('        {m}\n        def ', '        @D\n        def ')
+                .replace('            {m}\n            def ', '            @D\n            def '))
         return HEADER.format(confkw=confkw) + body.format(h1=h1, h2=h2, classdec='', m='', ms='', f='@D', nesteddec='', post=POST)
     return HEADER.format(confkw=confkw) + BODY.format(h1=h1, h2=h2, classdec='', m='@D', ms='@D', f='', nesteddec='', post=POST)
 
@@ -239,7 +249,7 @@ def run_case(prop, name, spec, confkw, tier, src):
                                      'detail': '; '.join(problems)[:600], 'hint': name, 'confkw': confkw})
             else:
                 out.discharged += 1
-            for mname in ('ntm', 'enm', 'encm', '__new__', 'pre', '__init__', '__call__', 'plain', 'cm', 'sm', 'prop', 'loose', 'gone', 'inner', 'nloose', 'meth'):
+            for mname in ('dinner', 'dcm', 'ntm', 'enm', 'encm', '__new__', 'pre', '__init__', '__call__', 'plain', 'cm', 'sm', 'prop', 'loose', 'gone', 'inner', 'nloose', 'meth'):
                 ra, rb = A.get(mname, []), B.get(mname, [])
                 if len(ra) != len(rb):
                     out.findings.append({'kind': 'c13_side', 'program': mname,
@@ -354,7 +364,7 @@ def replay_c13(p):
     if p.get('program') == 'side':
         probs = concrete_side_conditions(nsA, nsB, by_name(rA), by_name(rB), src.get('route', 'members'))
         A, B = by_name(rA), by_name(rB)
-        for mname in ('ntm', 'enm', 'encm', '__new__', 'pre', '__init__', '__call__', 'plain', 'cm', 'sm', 'prop', 'loose', 'gone', 'inner', 'nloose', 'meth'):
+        for mname in ('dinner', 'dcm', 'ntm', 'enm', 'encm', '__new__', 'pre', '__init__', '__call__', 'plain', 'cm', 'sm', 'prop', 'loose', 'gone', 'inner', 'nloose', 'meth'):
             if len(A.get(mname, [])) != len(B.get(mname, [])):
                 probs.append(f'{len(A.get(mname, []))} checking wrapper(s) generated for {mname} when decorating the class, '
                              f'{len(B.get(mname, []))} when decorating the {src.get("route", "members")}')
@@ -373,6 +383,10 @@ def replay_c13(p):
                     (inst if idx == 0 else ns['Sub']()).plain(obj)
                 elif m == 'pre':
                     inst.pre(obj)
+                elif m == 'dinner':
+                    K.Nested.Deep().dinner(obj)
+                elif m == 'dcm':
+                    K.Nested.Deep.dcm(obj)
                 elif m == 'ntm':
                     tuple.__new__(ns['NT'], (None,)).ntm(obj)
                 elif m == 'enm':
